@@ -71,6 +71,8 @@ def gen_harness(ext, path):
     parts.append('\nunsigned long nondet_ulong(void);\nunsigned long wit_n, wit_idx;\nvoid h_data_subscript(void) {\n  size_t index = nondet_ulong();\n  verif_n = nondet_ulong();\n  verif_deref = 0;\n'
                  '  wit_n = verif_n; wit_idx = index;\n  data_subscript(index);\n  __CPROVER_assert(0, "CANARY returns");\n'
                  '  __CPROVER_assert(verif_deref, "O_elem: Data::operator[](size_t) returns an element");\n}\n')
+    parts.append('\nvoid h_decl_array(void) {\n  int size = nondet_int();\n  wit_v1 = size; wit_v2 = 0;\n  verif_n = 0;\n  decl_array(size);\n  __CPROVER_assert(0, "CANARY returns");\n'
+                 '  __CPROVER_assert(verif_declared == size, "O_decl: the declared size is recorded");\n}\n')
     parts.append('\nvoid h_arms_present(void) {\n  __CPROVER_assert(0, "CANARY returns");\n')
     for t in pml_extract.OPS:
         parts.append('  __CPROVER_assert(%d, "O_present: evaluateExpr has an arm for operator token %s (\'%s\') - otherwise a well-typed expression is rejected as not implemented");\n'
@@ -191,6 +193,24 @@ DOC_AL = '''<?xml version="1.0" encoding="UTF-8"?>
   <final id="fail"/>
 </scxml>
 '''
+
+
+def native_replay_decl(size, wd):
+    """<data id="arr" type="int[size]"/> then every element must read 0, run by the real test-state-pass. returns (reproduced, text)"""
+    exe, err = build_native()
+    if not exe:
+        return False, 'cannot build test-state-pass: ' + err
+    cond = ' && '.join('arr[%d] == 0' % i for i in range(size))
+    os.makedirs(wd, exist_ok=True)
+    path = os.path.join(wd, 'replay_decl.scxml')
+    open(path, 'w').write(DOC_AL.replace('>%(content)s</data>', '/>') % {'size': size, 'on_error': 'fail', 'on_value': 'pass', 'cond': esc(cond)})
+    try:
+        p = subprocess.run([exe, path], capture_output=True, text=True, timeout=120, errors='replace')
+        rc = p.returncode
+        tail = (p.stdout + p.stderr).strip().splitlines()[-4:]
+    except subprocess.TimeoutExpired:
+        rc, tail = 'timeout', []
+    return (rc != 0), 'document %s: int arr[%d] declared, expects %s; test-state-pass exit=%s %s' % (path, size, cond, rc, ' / '.join(tail)[-300:])
 
 
 def native_replay_arrlen(size, length, wd):
@@ -402,6 +422,12 @@ def run(tier):
     jobs.append(cbmcrun.Job('h_data_subscript', [hpath], 'h_data_subscript', wd, enforce='data_subscript', apply_loop_contracts=True, includes=[HERE, wd],
                             defines={'PML_EXTRACTED': '"%s"' % cpath}, cbmc_flags=['--drop-unused-functions'], timeout=900, mem_gb=8,
                             meta={'token': 'ELEM', 'arity': 2, 'back_end': 'MiniSat; loop contracts (no unwinding)'}))
+    jobs.append(cbmcrun.Job('h_decl_array', [hpath], 'h_decl_array', wd, enforce='decl_array', apply_loop_contracts=True, includes=[HERE, wd],
+                            defines={'PML_EXTRACTED': '"%s"' % cpath}, cbmc_flags=['--drop-unused-functions'], timeout=900, mem_gb=8,
+                            meta={'token': 'DECL', 'arity': 1, 'back_end': 'MiniSat; loop contract (no unwinding)'}))
+    part.functions.append({'function': 'PromelaDataModel::evaluateDecl, branch PML_VAR_ARRAY (array declaration)', 'file': '%s:%d' % (pml_extract.SRC, ext['decl_array']['line']),
+                           'route': 'R3 extract -> decl_array in work/pml/pml_extracted.c; value list abstracted to its length; one loop contract',
+                           'dropped': ext['decl_array']['dropped']})
     part.functions.append({'function': 'Data::operator[](const size_t index)', 'file': '%s:%d-%d' % ((pml_extract.DATA_H,) + tuple(ext['data_subscript_lines'])),
                            'route': 'R3 extract -> data_subscript in work/pml/pml_extracted.c; std::list abstracted to its length, iterator to its position; two loop contracts',
                            'dropped': 'the payload of the list elements'})
@@ -409,6 +435,8 @@ def run(tier):
         results = list(ex.map(cbmcrun.verify, jobs))
     for r in results:
         part.add_job(r)
+        if r['status'] == 'ok' and r['meta'].get('token') == 'DECL' and not any(k.startswith('loop_') for k in (r.get('classes') or {})):
+            part.errors.append('h_decl_array: no loop-contract obligations generated (loop contract silently dropped)')
         if r['status'] == 'ok' and r['meta'].get('token') == 'ELEM' and not any(k.startswith('loop_') for k in (r.get('classes') or {})):
             part.errors.append('h_data_subscript: no loop-contract obligations generated (loop contracts silently dropped)')
         if r['status'] != 'ok':
@@ -444,6 +472,15 @@ def run(tier):
                 path = common.write_replay('C17', '%s_%s' % (r['name'], f['property']), payload)
                 part.violations.append({'obligation': '%s %s' % (r['name'], f['property']), 'replay': path, 'reproduced': ok,
                                         'what': '%s | list length %s, index %s | %s' % (f['description'], n_, idx_, text), 'token': tok, 'arity': 2, 'kind': 'elem', 'v1': ridx, 'v2': ridx + 1})
+                continue
+            if tok == 'DECL':
+                rs = v1 if (v1 is not None and 1 <= v1 <= 6) else 3
+                ok, text = native_replay_decl(rs, wd)
+                payload = {'property': 'C17', 'engine': 'pmlarms', 'obligation': f['property'], 'description': f['description'], 'token': tok, 'arity': 1,
+                           'declared_size': v1, 'v1': rs, 'v2': 0, 'native_replay_output': text}
+                path = common.write_replay('C17', '%s_%s' % (r['name'], f['property']), payload)
+                part.violations.append({'obligation': '%s %s' % (r['name'], f['property']), 'replay': path, 'reproduced': ok,
+                                        'what': '%s | declared size %s | %s' % (f['description'], v1, text), 'token': tok, 'arity': 1, 'kind': 'decl', 'v1': rs, 'v2': 0})
                 continue
             if tok == 'ARRLEN':
                 sz = ln = None
@@ -492,6 +529,8 @@ def replay(path):
         if not ok:
             ok, t2 = native_replay_elem(d['v1'], os.path.join(common.WORK, 'pml'))
             text += ' || ' + t2
+    elif d['token'] == 'DECL':
+        ok, text = native_replay_decl(d['v1'], os.path.join(common.WORK, 'pml'))
     elif d['token'] == 'ARRLEN':
         ok, text = native_replay_arrlen(d['v1'], d['v2'], os.path.join(common.WORK, 'pml'))
     elif d['token'].startswith('INDEX_'):
